@@ -6,6 +6,7 @@ import (
 	"testing"
 	"time"
 
+	metav1 "k8s.io/apimachinery/pkg/apis/meta/v1"
 	"pgregory.net/rapid"
 
 	edsv1 "github.com/DataDog/extendeddaemonset/api/v1alpha1"
@@ -118,5 +119,65 @@ func TestC03Budget(t *testing.T) {
 				rt.Fatalf("%s\nlayout: %s", vs[0], layout)
 			}
 		}
+	})
+}
+
+// TestC09Spacing: two sync requests of the active replica set around reconcileFrequency, the first
+// at a generated fraction of a second (stored timestamps are truncated to seconds), work pending for both.
+func TestC09Spacing(t *testing.T) {
+	rec := evid.New("TestC09Spacing", "C09", "active replica set with pods to create and outdated pods to delete; sync 1 at second fraction f in {0, .2, .5, .8, .95}, sync 2 after a gap of reconcileFrequency + d, d in {-1.8s ... +0.3s}; reconcileFrequency in {2s, 3s, 10s}; oracle (rate monitor): two syncs that create or delete pods are at least reconcileFrequency - 1s apart when the first status write succeeded, and every sync respects the slow-start bound; non-trivial = the second request arrives less than reconcileFrequency after the first; distinct by (frequency, fraction, gap, layout)")
+	t.Cleanup(func() {
+		if !t.Failed() {
+			rec.Done()
+		}
+	})
+	on := mon.Of("rate", "budget", "no-panic")
+	rapid.Check(t, func(rt *rapid.T) {
+		freq := rapid.SampledFrom([]time.Duration{2 * time.Second, 3 * time.Second, 10 * time.Second}).Draw(rt, "reconcileFrequency")
+		frac := rapid.SampledFrom([]time.Duration{0, 200 * time.Millisecond, 500 * time.Millisecond, 800 * time.Millisecond, 950 * time.Millisecond}).Draw(rt, "fraction")
+		d := rapid.SampledFrom([]time.Duration{-1800 * time.Millisecond, -1400 * time.Millisecond, -1200 * time.Millisecond, -1050 * time.Millisecond, -900 * time.Millisecond, -500 * time.Millisecond, -100 * time.Millisecond, 0, 300 * time.Millisecond}).Draw(rt, "gapDelta")
+		n := rapid.IntRange(3, 8).Draw(rt, "nodes")
+		c := sim.New(sim.Options{})
+		for i := 0; i < n; i++ {
+			c.AddNode(fmt.Sprintf("n%02d", i), map[string]string{"zone": "a"}, nil)
+		}
+		st := edsv1.ExtendedDaemonSetSpecStrategy{ReconcileFrequency: &metav1.Duration{Duration: freq}}
+		st.RollingUpdate.MaxUnavailable = gen.ParseIntOrPercent("1")
+		st.RollingUpdate.SlowStartAdditiveIncrease = gen.ParseIntOrPercent("1")
+		st.RollingUpdate.SlowStartIntervalDuration = &metav1.Duration{Duration: time.Hour}
+		p := prepare(c, "ns1", "foo", st, nil, "AB")
+		active := p.RS['B']
+		// half of the nodes hold an outdated available pod, the others nothing: work for creation and deletion
+		c.Advance(time.Hour + frac)
+		for i := 0; i < n/2; i++ {
+			p.addPod(fmt.Sprintf("n%02d", i), 'A', PSAvailable, 30*time.Minute)
+		}
+		h := mon.NewHistory()
+		var vs []mon.V
+		r1 := c.Reconcile(sim.ActorERS, "ns1", active)
+		vs = append(vs, mon.Check(r1, on, h)...)
+		c.Advance(freq + d)
+		r2 := c.Reconcile(sim.ActorERS, "ns1", active)
+		vs = append(vs, mon.Check(r2, on, h)...)
+		// and a third request, again early, to catch a gate that opens only every other time
+		c.Advance(freq + d)
+		r3 := c.Reconcile(sim.ActorERS, "ns1", active)
+		vs = append(vs, mon.Check(r3, on, h)...)
+		writes := func(r *sim.Record) int {
+			k := 0
+			for _, cl := range r.Calls {
+				if cl.Kind == "Pod" && (cl.Verb == "create" || cl.Verb == "delete") {
+					k++
+				}
+			}
+			return k
+		}
+		nt := d < 0 && writes(r1) > 0
+		rec.Case(nt, evid.FP(freq, frac, d, n), fmt.Sprintf("second-sync-writes=%v", writes(r2) > 0))
+		rec.Steps(3)
+		if nt {
+			rec.Sample(map[string]interface{}{"reconcileFrequency": freq.String(), "fraction": frac.String(), "gap": (freq + d).String(), "writes": []int{writes(r1), writes(r2), writes(r3)}})
+		}
+		settle(rt, rec, vs, map[string]interface{}{"reconcileFrequency": freq.String(), "fraction": frac.String(), "gap": (freq + d).String(), "nodes": n}, n, "")
 	})
 }
